@@ -58,12 +58,55 @@ def cache_field(model: Model) -> str:
     return c
 
 
+class _Fields:
+    pass
+
+
+def F(model: Model):
+    """Mangled names of Pregex's instance fields, located by role in Pregex.__init__ (private names may change):
+    pattern = the field assigned from the `pattern` parameter (escaped or not); type / repeatable = the two targets of
+    the tuple assignment from the classifier; cache = see cache_field."""
+    f = model.__dict__.get("_field_names")
+    if f is None:
+        f = _Fields()
+        f.pattern, f.type, f.repeatable = "_Pregex__pattern", "_Pregex__type", "_Pregex__repeatable"
+        init = model.pregex.methods.get("__init__")
+        if init is not None:
+            params = init.params
+            for n in ast.walk(init.node):
+                if isinstance(n, ast.Assign) and len(n.targets) == 1:
+                    t = n.targets[0]
+                    is_self_attr = lambda x: isinstance(x, ast.Attribute) and isinstance(x.value, ast.Name) and x.value.id == "self"
+                    if isinstance(t, ast.Tuple) and len(t.elts) == 2 and all(is_self_attr(e) for e in t.elts):
+                        f.type, f.repeatable = mangle(t.elts[0].attr, "Pregex"), mangle(t.elts[1].attr, "Pregex")
+                    elif is_self_attr(t) and len(params) > 1 and any(isinstance(x, ast.Name) and x.id == params[1] for x in ast.walk(n.value)):
+                        f.pattern = mangle(t.attr, "Pregex")
+        f.cache = cache_field(model)
+        model.__dict__["_field_names"] = f
+    global CURRENT
+    CURRENT = f
+    return f
+
+
+CURRENT = None
+
+
+def pattern_of(o):
+    """Pattern text of an interpreted Pregex object (field located by role; see F)."""
+    if not isinstance(o, Obj):
+        return None
+    if CURRENT is not None and CURRENT.pattern in o.fields:
+        return o.fields[CURRENT.pattern]
+    return o.fields.get("_Pregex__pattern")
+
+
 def make_operand(model: Model, text: str, tname: str, repeatable: bool = True, cls=None, tag=None) -> Obj:
     ci = cls or model.pregex
     o = Obj(ci)
-    o.fields["_Pregex__pattern"] = text
-    o.fields["_Pregex__type"] = tval(model, tname)
-    o.fields["_Pregex__repeatable"] = repeatable
+    fn = F(model)
+    o.fields[fn.pattern] = text
+    o.fields[fn.type] = tval(model, tname)
+    o.fields[fn.repeatable] = repeatable
     o.fields[cache_field(model)] = None
     o.tag = tag or f"{tname}:{text!r}"
     return o
@@ -110,19 +153,36 @@ class PregexHooks(Hooks):
             if not isinstance(text, str):
                 raise Incomplete("__infer_type on non-string")
             if text == "":
-                return (tval(self.model, "Empty"), True)
+                return self._record(interp, (tval(self.model, "Empty"), True))
             if self.oracle is not None:
                 r = self.oracle(text)
                 if r is not None:
-                    return (tval(self.model, r[0]), r[1])
+                    return self._record(interp, (tval(self.model, r[0]), r[1]))
             if not self.fork_unknown:
                 raise Incomplete(f"type of constructed text {text!r} needed but unknown")
             opts = [(n, True) for n in TYPE_NAMES if n != "Empty" and tag_feasible(n, text)]
             if tag_feasible("Assertion", text):
                 opts.append(("Assertion", False))
             pair = Lazy([(tval(self.model, n), rep) for n, rep in opts], f"infer_type({text!r})")
-            return _LazyPair(pair)
+            return _LazyPair(pair, self._record_fields())
         return NotImplemented
+
+    def _record_fields(self):
+        """Field names of the record the classifier returns, when it returns a NamedTuple instead of a bare pair."""
+        if not hasattr(self, "_rec"):
+            self._rec = None
+            for n in ast.walk(self.infer.node):
+                if isinstance(n, ast.Return) and isinstance(n.value, ast.Call):
+                    ci = self.model.resolve_class_expr(self.infer.module, n.value.func)
+                    if ci is not None and len(ci.fields) == 2:
+                        self._rec = ci
+                        break
+        return [x for x, _ in self._rec.fields] if self._rec is not None else None
+
+    def _record(self, interp, pair):
+        if self._record_fields() is None:
+            return pair
+        return interp._make_record(self._rec, list(pair), {}, None, True)
 
     def on_text(self, interp, node, frame, value):
         self.texts.append((node, frame.func, value))
@@ -131,12 +191,22 @@ class PregexHooks(Hooks):
 class _LazyPair:
     """Result of the unknown `__infer_type`: unpacks into two linked lazy fields."""
 
-    def __init__(self, lazy: Lazy):
+    def __init__(self, lazy: Lazy, fields=None):
         self.lazy = lazy
         self.resolved = None
+        self.fields = fields       # attribute names when the classifier returns a two-field record
 
     def __iter__(self):
         return iter((_LinkedLazy(self, 0), _LinkedLazy(self, 1)))
+
+    def __getattr__(self, name):
+        fields = self.__dict__.get("fields")
+        if fields and name in fields:
+            return _LinkedLazy(self, fields.index(name))
+        raise AttributeError(name)
+
+    def __getitem__(self, k):
+        return _LinkedLazy(self, (0, 1)[k])
 
 
 class _LinkedLazy(Lazy):
